@@ -486,6 +486,16 @@ class InvokeDefinition:
         )
         self.id: str = invoke_id
         self.src: Optional[str] = config.get("src")
+        # 🛡️ The source names a registered service and is used as a lookup
+        #    key. A list or object used to be accepted and then failed on
+        #    entry to the invoking state with a raw `TypeError` (unhashable).
+        if self.src is not None and not isinstance(self.src, str):
+            raise InvalidConfigError(
+                f"Invoke '{invoke_id}' on state "
+                f"'{getattr(source, 'id', source)}' has a 'src' of type "
+                f"'{type(self.src).__name__}'. Expected a service name "
+                f"(string)."
+            )
         self.input: Optional[Dict[str, Any]] = config.get("input")
         self.source: "StateNode" = source
         self.on_done: List[TransitionDefinition] = on_done
